@@ -342,6 +342,9 @@ func validateFields(transportDD *datadictionary.DataDictionary,
 ) MessageRejectError {
 	for _, field := range message.fields {
 		switch {
+		case field.tag == tagMsgType:
+			// Checked against the message definitions by validateMsgType: the transport
+			// dictionary's MsgType enumeration does not list every application message type.
 		case field.tag.IsHeader():
 			if err := validateField(transportDD, settings, transportDD.Header.Tags, field); err != nil {
 				return err
